@@ -37,7 +37,7 @@ class Hang(BaseException):
     terminate within CALL_BUDGET_S (BaseException: `except Exception` cannot swallow it)."""
 
 
-CALL_BUDGET_S = float(os.environ.get("VERIF_CALL_BUDGET", "20"))
+CALL_BUDGET_S = float(os.environ.get("VERIF_CALL_BUDGET", "90"))
 _CURRENT = [None]
 
 
@@ -127,6 +127,11 @@ class Acc(object):
         self.outcomes = set()
         self.cur = None
         _CURRENT[0] = self
+
+    def pause(self):
+        """disarm the watchdog while the harness itself computes (reference models can be slow on long inputs and
+        under load); the next tick() re-arms it for the library call"""
+        signal.setitimer(signal.ITIMER_REAL, 0)
 
     def tick(self, cur=None):
         """Called once per explored state: remembers the state (a case dict or a zero-argument
